@@ -1301,6 +1301,128 @@ impl Part for UnionPart {
     }
 }
 
+// ---- the boundary between the plain and the quoted identifier range ----
+
+#[derive(Clone, Debug, Serialize, Deserialize)]
+struct BoundaryCase {
+    /// plain terms and quoted triples created before the counter is moved
+    warm_terms: u8,
+    warm_quoted: u8,
+    /// how far below the first quoted identifier the (public) counter is placed
+    below: u8,
+    /// how many new terms are encoded across the boundary
+    fresh: u8,
+    /// through SparqlDatabase::encode_term_star instead of Dictionary::encode
+    via_star: bool,
+}
+
+/// A dictionary that has handed out almost 2^31 identifiers (its public counter `next_id` is placed just below
+/// QUOTED_TRIPLE_ID_BIT): every identifier it still hands out for a plain term must lie below the quoted range, be new,
+/// decode back (also through the star-aware decoders) and stay stable; refusing (the documented "ID space exhausted"
+/// panic) is accepted; the quoted triples created before keep decoding.
+struct Boundary;
+impl Part for Boundary {
+    type Case = BoundaryCase;
+    fn name(&self) -> &'static str {
+        "id-boundary"
+    }
+    fn cases(&self, tier: Tier) -> u32 {
+        tier.pick(400, 4_000)
+    }
+    fn strategy(&self, _tier: Tier) -> BoxedStrategy<BoundaryCase> {
+        (0u8..6, 0u8..4, 0u8..6, 1u8..8, any::<bool>()).prop_map(|(warm_terms, warm_quoted, below, fresh, via_star)| BoundaryCase { warm_terms, warm_quoted, below, fresh, via_star }).boxed()
+    }
+    fn check(&self, c: &BoundaryCase) -> Outcome {
+        let mut o = Outcome::new();
+        let mut db = SparqlDatabase::new();
+        let mut known: Vec<(String, u32)> = vec![];
+        for i in 0..c.warm_terms.max(3) {
+            let t = format!("http://e/w{i}");
+            let id = db.dictionary.write().unwrap().encode(&t);
+            known.push((t, id));
+        }
+        let mut quoted: Vec<(u32, (u32, u32, u32))> = vec![];
+        for i in 0..c.warm_quoted as usize {
+            let spo = (known[i % known.len()].1, known[(i + 1) % known.len()].1, known[(i + 2) % known.len()].1);
+            let id = db.quoted_triple_store.write().unwrap().encode(spo.0, spo.1, spo.2);
+            quoted.push((id, spo));
+        }
+        db.dictionary.write().unwrap().next_id = QUOTED_TRIPLE_ID_BIT - c.below as u32;
+        let mut refused = 0;
+        let mut fresh: Vec<(String, u32)> = vec![];
+        for i in 0..c.fresh {
+            let t = format!("http://e/late{i}");
+            let r = catch(|| if c.via_star { db.encode_term_star(&t) } else { db.dictionary.write().unwrap().encode(&t) });
+            o.inner_evals += 1;
+            match r {
+                Ok(id) => fresh.push((t, id)),
+                Err(site) if site.msg.contains("exhausted") => {
+                    // the refusal is a panic under the dictionary's write lock: the lock is poisoned and nothing more
+                    // can be asked of this database
+                    refused += 1;
+                    break;
+                }
+                Err(site) => {
+                    o.panic(&format!("encoding a new term with next_id {} below the quoted range", c.below), &site);
+                    return o;
+                }
+            }
+        }
+        o.class_if(refused > 0, "refused-at-the-boundary");
+        o.class_if(!fresh.is_empty() && refused > 0, "handed-out-then-refused");
+        o.class_if(c.below == 0, "counter-exactly-at-the-boundary");
+        o.nontrivial = c.fresh > c.below;
+        if refused > 0 {
+            // judge what was handed out before the refusal from the values alone (the database is poisoned)
+            for (i, (t, id)) in fresh.iter().enumerate() {
+                if is_quoted_triple_id(*id) {
+                    o.fail("c15.boundary.plain_id_in_quoted_range", format!("plain term {t:?} was given identifier {id:#x}, which lies in the quoted-triple range (counter placed {} below it)", c.below));
+                    return o;
+                }
+                if known.iter().chain(fresh[..i].iter()).any(|(_, other)| other == id) {
+                    o.fail("c15.boundary.id_shared", format!("plain term {t:?} shares identifier {id:#x} with another term"));
+                    return o;
+                }
+            }
+            return o;
+        }
+        let all: Vec<(String, u32)> = known.iter().cloned().chain(fresh.iter().cloned()).collect();
+        for (i, (t, id)) in all.iter().enumerate() {
+            if is_quoted_triple_id(*id) {
+                o.fail("c15.boundary.plain_id_in_quoted_range", format!("plain term {t:?} was given identifier {id:#x}, which lies in the quoted-triple range (counter placed {} below it)", c.below));
+                return o;
+            }
+            if all[..i].iter().any(|(_, other)| other == id) {
+                o.fail("c15.boundary.id_shared", format!("plain term {t:?} shares identifier {id:#x} with another term"));
+                return o;
+            }
+            let d = db.dictionary.read().unwrap().decode(*id).map(|x| x.to_string());
+            if d.as_deref() != Some(t.as_str()) {
+                o.fail("c15.boundary.decode", format!("identifier {id:#x} of {t:?} decodes to {d:?}"));
+                return o;
+            }
+            let any = db.decode_any(*id);
+            if any.as_deref() != Some(t.as_str()) {
+                o.fail("c15.boundary.decode_any", format!("decode_any({id:#x}) = {any:?}, expected {t:?}"));
+                return o;
+            }
+            let again = catch(|| db.dictionary.write().unwrap().encode(t));
+            if again.as_ref().ok() != Some(id) {
+                o.fail("c15.boundary.unstable", format!("encoding {t:?} again gives {:?}, first time {id:#x}", again.ok()));
+                return o;
+            }
+        }
+        for (id, spo) in &quoted {
+            let d = db.quoted_triple_store.read().unwrap().decode(*id);
+            if d != Some(*spo) {
+                o.fail("c15.boundary.quoted_decode", format!("quoted identifier {id:#x} decodes to {d:?}, expected {spo:?}"));
+                return o;
+            }
+        }
+        o
+    }
+}
+
 fn main() {
     let mut s = Session::start(
         "C15",
@@ -1322,5 +1444,6 @@ fn main() {
     s.assume("QuotedTripleStore::encode receives as components only plain-range numbers or quoted ids it issued itself (no caller can name a future quoted id)");
     s.run(&DictPart);
     s.run(&UnionPart);
+    s.run(&Boundary);
     std::process::exit(s.finish());
 }
